@@ -1,15 +1,23 @@
 """C20 — policy wildcard matching and policy documents.
-Engine: Kani/CBMC on the compiled matcher (in-crate, all patterns x inputs of concrete sizes against a DP reference)
-and on PatternSet (public API).  The JSON half (serde_json + IndexMap) does not fit Kani (measured: no verdict after 420 s
-of symbolic execution on concrete values) and is outside the claim."""
-from vlib import kspec
+Engines: Kani/CBMC on the compiled matcher (in-crate, all patterns x inputs of concrete sizes against a DP reference)
+and on PatternSet (public API); rsx + z3 on the policy document codec (props/C20json.py: the hand-written serde impls
+of model.rs executed symbolically, derive/serde_json as a library model validated witness by witness on the real build).
+serde_json + IndexMap themselves do not fit Kani (measured: no verdict after 420 s on concrete values)."""
+import os
+import sys
+
+sys.path.insert(0, os.path.dirname(os.path.abspath(__file__)))
+from vlib import kspec  # noqa: E402
+import C20json  # noqa: E402
 
 LEVEL = "model_checking"
 
 
 def run(rep, tier):
     rep.encoded("crates/s3s-policy/src/pattern.rs", "PatternSet::match_pattern, PatternSet::new, PatternSet::is_match")
+    try:
+        C20json.run_json(rep, tier)
+    except (C20json.Unsupported, C20json.rsx.PathBudget, C20json.Inconclusive) as e:
+        rep.fail_inconclusive("policy JSON: %s" % e)
     kspec.run_spec(rep, "C20", tier, budget_s=500)
-    rep.out("policy document JSON round trip (serde_json/IndexMap not reachable with Kani; the One(\"*\") -> Wildcard asymmetry was "
-            "found by reading only and is therefore not reported as a finding); pattern sets of two or more patterns (OOM at 8-12 GB); "
-            "patterns/inputs longer than 8 bytes")
+    rep.out("pattern sets of two or more patterns (OOM at 8-12 GB); patterns/inputs longer than 8 bytes")
